@@ -1,6 +1,8 @@
 package checks
 
 import (
+	"github.com/fiorix/go-diameter/v4/diam"
+	"github.com/fiorix/go-diameter/v4/diam/avp"
 	"os/exec"
 	"path/filepath"
 	"os"
@@ -566,14 +568,76 @@ func runC17(ctx *ev.Ctx) {
 	}
 	ctx.Set("lookups_compared", total)
 	ctx.AddEvals(total, total)
-	ctx.Rule = "three child processes whose first use of dict.Default is Load / LoadFile of a dictionary that re-declares embedded AVPs / one lookup and then the Load (control): the definitions loaded last win in all three, which resolve identically; the generated-family and reload histories also through dict.NewParser(file1, file2, ...) in one call (five times each): argument order is load order; loading histories: a dictionary loaded again after another one redefined its AVPs and a file edited and reloaded from the same path (through Load and through LoadFile with temporary files); one dictionary declaring an AVP name under two codes, the later one with the lower code; one application id declared under two types by successive loads; dictionary files with several application elements (bare re-declarations of loaded applications before / between / after populated ones); the embedded dictionaries (extracted from diam/dict/default.go) in default order, every rotation and every adjacent swap; a generated family of four 3-AVP dictionaries that redefine each other's codes and names across application 0 / 4 / 16777251 and vendor variants, in all 24 orders, alone and on top of the base dictionary. After every Load - and after Loads that are rejected (a re-declared command, an undeclarable data type, truncated XML) following the first and the last dictionary of each history: FindAVPWithVendor by uint32 code, by int code and by name, FindAVP by int, FindCommand and App(id[,type]) for every application (loaded, children of the parent map, 0, an unrelated id) x every code / name present anywhere plus +-1 neighbours x vendor {declared, 0, another, wildcard}, plus every code looked up under two different vendor ids directly after one another, (the key space is that of ALL dictionaries of the history, so keys are also looked up while still undefined) are compared with the reference model, and everything resolvable before the Load must still be. Distinct by (history, query)."
+	ctx.Rule = "a data type registered by the application (datatype.Available + datatype.Decoder) after the process has decoded messages, declared by a dictionary loaded afterwards, is encoded and decoded; three child processes whose first use of dict.Default is Load / LoadFile of a dictionary that re-declares embedded AVPs / one lookup and then the Load (control): the definitions loaded last win in all three, which resolve identically; the generated-family and reload histories also through dict.NewParser(file1, file2, ...) in one call (five times each): argument order is load order; loading histories: a dictionary loaded again after another one redefined its AVPs and a file edited and reloaded from the same path (through Load and through LoadFile with temporary files); one dictionary declaring an AVP name under two codes, the later one with the lower code; one application id declared under two types by successive loads; dictionary files with several application elements (bare re-declarations of loaded applications before / between / after populated ones); the embedded dictionaries (extracted from diam/dict/default.go) in default order, every rotation and every adjacent swap; a generated family of four 3-AVP dictionaries that redefine each other's codes and names across application 0 / 4 / 16777251 and vendor variants, in all 24 orders, alone and on top of the base dictionary. After every Load - and after Loads that are rejected (a re-declared command, an undeclarable data type, truncated XML) following the first and the last dictionary of each history: FindAVPWithVendor by uint32 code, by int code and by name, FindAVP by int, FindCommand and App(id[,type]) for every application (loaded, children of the parent map, 0, an unrelated id) x every code / name present anywhere plus +-1 neighbours x vendor {declared, 0, another, wildcard}, plus every code looked up under two different vendor ids directly after one another, (the key space is that of ALL dictionaries of the history, so keys are also looked up while still undefined) are compared with the reference model, and everything resolvable before the Load must still be. Distinct by (history, query)."
 	ctx.Assume = []string{"reference model refdict: application -> documented parents (16777251->4, 16777238->4, 4->1) -> base; exact vendor or wildcard; last load wins"}
 }
 
 // c17Parent: type table and exported constants (run once).
+// c17LateType is an application-defined data type (one octet).
+type c17LateType uint8
+
+func (v c17LateType) Serialize() []byte     { return []byte{byte(v)} }
+func (v c17LateType) Len() int              { return 1 }
+func (v c17LateType) Padding() int          { return 3 }
+func (v c17LateType) Type() datatype.TypeID { return datatype.TypeID(201) }
+func (v c17LateType) String() string        { return fmt.Sprintf("Late{%d}", uint8(v)) }
+
+// c17LateRegistration: an application registers a data type of its own (name in
+// datatype.Available, decoder in datatype.Decoder) AFTER the process has decoded plenty of
+// messages, loads a dictionary that declares an AVP of that type, and exchanges it: the type name
+// is one "a dictionary may declare", so it can be encoded and decoded from then on.
+func c17LateRegistration(ctx *ev.Ctx) {
+	ctx.Eval(ev.HS("late data type registration"))
+	// (decodes have happened in this process by now; make sure of it)
+	if w, err := diam.NewMessage(257, 0x80, 0, 1, 1, dict.Default).Serialize(); err == nil {
+		_, _ = diam.ReadMessage(bytes.NewReader(w), dict.Default)
+		_, _ = datatype.Decode(datatype.Unsigned32Type, []byte{0, 0, 0, 1})
+	}
+	datatype.Available["Verif-Late-Type"] = datatype.TypeID(201)
+	datatype.Decoder[datatype.TypeID(201)] = func(b []byte) (datatype.Type, error) {
+		if len(b) != 1 {
+			return nil, fmt.Errorf("Late: %d octets", len(b))
+		}
+		return c17LateType(b[0]), nil
+	}
+	defer func() { delete(datatype.Available, "Verif-Late-Type"); delete(datatype.Decoder, datatype.TypeID(201)) }()
+	report := func(what string) {
+		ctx.Report("", "a data type registered after the first decode", what, map[string]string{"types": "late"})
+	}
+	p, err := dict.NewParser()
+	if err == nil {
+		err = p.Load(strings.NewReader(`<?xml version="1.0" encoding="UTF-8"?><diameter><application id="0" name="Late">
+<command code="9900" short="LT" name="Late-Type"><request><rule avp="Late-Value" required="false"/></request><answer><rule avp="Late-Value" required="false"/></answer></command>
+<avp name="Late-Value" code="9901" must="M"><data type="Verif-Late-Type"/></avp></application></diameter>`))
+	}
+	if err != nil {
+		report("a dictionary declaring the registered type name is rejected: " + err.Error())
+		return
+	}
+	m := diam.NewMessage(9900, 0x80, 0, 1, 1, p)
+	if _, err := m.NewAVP("Late-Value", avp.Mbit, 0, c17LateType(42)); err != nil {
+		report("an AVP of the registered type cannot be created: " + err.Error())
+		return
+	}
+	w, err := m.Serialize()
+	if err != nil {
+		report("a message with an AVP of the registered type cannot be encoded: " + err.Error())
+		return
+	}
+	back, err := diam.ReadMessage(bytes.NewReader(w), p)
+	if err != nil {
+		report("type name \"Verif-Late-Type\" is accepted by Load and has a decoder in datatype.Decoder, but a message carrying an AVP of that type cannot be decoded: " + err.Error())
+		return
+	}
+	if len(back.AVP) != 1 || back.AVP[0].Data != c17LateType(42) {
+		report(fmt.Sprintf("the AVP of the registered type came back as %v", back.AVP))
+	}
+}
+
 func c17Parent(ctx *ev.Ctx) {
 	// 0. dict.Default extended before its first use, in processes of their own
 	c17FreshDefault(ctx)
+	defer c17LateRegistration(ctx)
 	// 1. every type name a dictionary may declare is decodable and encodable
 	var names []string
 	for n := range datatype.Available {
